@@ -65,8 +65,12 @@ def run(ctx):
     for bi, t, e in pushes:
         w = e[2][1]
         cs = f.conds(bi)
-        pos = any(e2.cond_positive(c, w) for c in cs)
         fin = any(e2.cond_finite(c, w) for c in cs)
+        # `w > 0.0` on its true edge; or, given `w.is_finite()`, the false edge of `w <= 0.0` (De Morgan form:
+        # `!w.is_finite() || w <= 0.0` rejects) — a NaN cannot take that edge together with the finite test
+        wn = norm(w)
+        pos = any(e2.cond_positive(c, w) for c in cs) or \
+            (fin and any(c['kind'] == 'Le' and c.get('truth') is False and c['a'] == wn and is_const(c['b'], 0) for c in cs))
         weight_vec = norm(e[2][0])
         ctx.verdict(pos and fin, rule, '%s:%s' % (rule, top), 'a weight is stored only under `w > 0.0` (strict) and `w.is_finite()` on that same value', f.where(bi),
                     'strictly positive: %s, finite: %s' % (pos, fin), breaks='zero, negative, NaN or infinite chance weights are accepted')
@@ -89,6 +93,11 @@ def run(ctx):
                 listed = {v for v, _ in t['targets']}
                 if {'0', '1'} <= listed and q.is_call(strip_refs(c['a']), 'len'):
                     arm = c
+        if arm is None:
+            # the same exclusion written as guard clauses: `if outcomes.is_empty() { return Err }`, `if len == 1 { return child }`
+            lbs = q.len_lower_bound(f, bi)
+            if any(v >= 2 for v in lbs.values()):
+                arm = {'a': ('other', 'guard clauses: len >= 2')}
         ctx.verdict(arm is not None, rule, '%s:arm-split:%s' % (rule, top), 'a chance node is built only in the arm that excludes 0 outcomes (error) and 1 outcome (collapsed)', f.where(bi),
                     'guarded by match on %s excluding 0 and 1: %s' % (facts.show(arm['a'])[:40] if arm else '?', arm is not None), breaks='empty or degenerate chance nodes reach the solver')
     # existing chance infoset: index accepted only on the equal edge
@@ -140,6 +149,15 @@ def run(ctx):
                 return True
         return False
 
+    # the recall witness, identified by type rather than by name: the per-player array-of-Option parameter of
+    # init_recurse and the Option-typed field of the infoset builder
+    wit_param = next((l for l in range(1, f.argc + 1) if f.locals[l]['ty'].startswith('[std::option::Option<') and f.locals[l]['ty'].endswith('; 2]')), None)
+    badt = lib.adts.get('PlayerInfosetBuilder') or []
+    wit_field = next((n for n, ty in zip(badt[0].get('fields', []), badt[0].get('ftys', [])) if 'Option<' in ty), 'prev_infoset') if badt else 'prev_infoset'
+
+    def mentions_witness(x):
+        return q.find_sub(x, lambda s_: (s_[0] == 'field' and s_[2] == wit_field) or (wit_param is not None and s_[0] in ('param', 'var') and s_[1] == wit_param)) is not None
+
     # ---- R4 existing multi-action infoset
     rule = 'C11.existing-infoset'
     found = False
@@ -149,7 +167,7 @@ def run(ctx):
             found = True
             cmp_ = [c for c in cs if c['kind'] in ('Ne', 'Eq')]
             acts = [c for c in cmp_ if 'actions' in facts.show(c['a']) + facts.show(c['b'])]
-            prev = [c for c in cmp_ if 'prev_infoset' in facts.show(c['a']) + facts.show(c['b'])]
+            prev = [c for c in cmp_ if mentions_witness(c['a']) or mentions_witness(c['b'])]
             eq = lambda c: whole_value_cmp(c) and ((c['kind'] == 'Ne' and c['truth'] is False) or (c['kind'] == 'Eq' and c['truth'] is True))
             ctx.verdict(bool(acts) and eq(acts[-1]), rule, '%s:same-actions:%s' % (rule, top), 'an existing infoset is reused only on the equal edge of (stored action list == this node\'s action list)', f.where(bi),
                         'action comparison: %s' % ((acts and (acts[-1]['kind'], acts[-1]['truth'])),), breaks='nodes of one infoset with different actions are accepted')
@@ -188,9 +206,9 @@ def run(ctx):
         ctx.verdict(bool(cross) and same_name, rule, '%s:cross-table:%s' % (rule, top), 'a new multi-action infoset is inserted only if its name is absent from the same player\'s single-action table', f.where(bi),
                     'absent-from-single-table test on the same name dominates: %s' % (bool(cross) and same_name), breaks='one infoset name with one action here and several there: listed twice, cannot be re-imported')
         # stored witness == compared witness
-        stored = q.ctor_field(lib, e, 'PlayerInfosetBuilder', 'prev_infoset', new_arg=1)
+        stored = q.ctor_field(lib, e, 'PlayerInfosetBuilder', wit_field, new_arg=1)
         stored = strip_refs(stored) if stored is not None else None
-        ctx.verdict(stored is not None and q.is_call(stored, 'ind') and 'prev_infosets' in facts.show(stored), 'C11.recall-witness-stored', 'C11.recall-witness-stored:%s' % top,
+        ctx.verdict(stored is not None and q.is_call(stored, 'ind') and mentions_witness(stored), 'C11.recall-witness-stored', 'C11.recall-witness-stored:%s' % top,
                     'the witness stored with a new infoset is this player\'s current witness ind(player, prev_infosets) — the value later nodes are compared with', f.where(bi),
                     'stored: %s' % (facts.show(stored)[:70] if stored else '?'))
 
